@@ -954,8 +954,12 @@ C04_THEOREMS = ["fwd_first_window", "fwd_windows_tile", "rev_first_window", "rev
                 "addbuf_moves_only_bpos", "loadbuf_ignores_bpos_partial", "nextchar_block_size_independent_partial",
                 "writeFasta_keeps_residues_partial", "open_block_size_independent", "header_fasta_block_size_independent",
                 "seebuf_is_byte_fold", "buffer_cut_invisible_partial", "readinfo_loop_is_file_fold", "readInfo_block_size_independent",
-                "readInfo_after_open_block_size_independent"]
-C02_THEOREMS = ["loadbuf_total", "nextchar_total", "nextchar_no_fault", "seebuf_total", "inmaps_agree"]
+                "readInfo_after_open_block_size_independent",
+                "residue_loop_closed_form", "header_fasta_closed_form", "read_one_record_closed_form", "open_is_openFasta",
+                "read_all_eq_parseFasta", "read_all_block_size_independent",
+                "readInfo_closed_form", "readSequence_closed_form", "read_readInfo_readSequence_agree"]
+C02_THEOREMS = ["loadbuf_total", "nextchar_total", "nextchar_no_fault", "seebuf_total", "inmaps_agree",
+                "read_total", "read_no_fault", "readInfo_total", "readSequence_total", "read_all_total"]
 C07_THEOREMS = ["findSubseq_absent", "findSubseq_out_of_range", "fetchSubseq_absent", "fetchSubseq_start_out_of_range", "findSubseq_cases",
                 "lands_on_start_line", "lands_on_start_residue", "lands_on_start_none", "bplrpl_sound_partial", "bplrpl_unsound_single_line", "bplrpl_unsound_at_init"]
 
